@@ -28,6 +28,8 @@ type optModel struct {
 	Legacy, LegacyDesc bool
 	ImportPath         string
 	M                  map[string]string
+	SourceRelative     bool
+	Module             string
 }
 
 func parseParam(p string) optModel {
@@ -45,6 +47,10 @@ func parseParam(p string) optModel {
 			o.LegacyDesc = b
 		case k == "import_path":
 			o.ImportPath = v
+		case k == "paths":
+			o.SourceRelative = v == "source_relative"
+		case k == "module":
+			o.Module = v
 		case len(k) > 1 && k[0] == 'M':
 			o.M[k[1:]] = v
 		}
@@ -72,6 +78,49 @@ func (o optModel) pkgOf(f *fileModel) goPkg {
 		return splitGoPackage(o.ImportPath)
 	}
 	return splitGoPackage(f.GoPackage)
+}
+
+// outputName: where the stubs of a proto file go, by the rule protoc-gen-go and
+// protoc-gen-go-grpc apply to the same options (the stubs are only usable next to their
+// output): the directory of the proto file with paths=source_relative, otherwise the import
+// path of the file's Go package, less the module prefix; the file name is that of the proto
+// file with .proto replaced. No reference (false) when the Go package is outside the module
+// given with module=: the standard generators reject that request.
+func (o optModel) outputName(f *fileModel) (string, bool) {
+	base := path.Base(f.Name)
+	if ext := path.Ext(base); ext == ".proto" || ext == ".protodevel" {
+		base = base[:len(base)-len(ext)]
+	}
+	base += ".pb.grpchan.go"
+	if o.SourceRelative {
+		return path.Join(path.Dir(f.Name), base), true
+	}
+	dir := o.pkgOf(f).Path
+	if o.Module != "" {
+		root := strings.TrimSuffix(o.Module, "/") + "/"
+		if !strings.HasPrefix(dir, root) {
+			return "", false
+		}
+		dir = strings.TrimPrefix(dir, root)
+	}
+	return path.Join(dir, base), true
+}
+
+// placedBy names the options that decide the output location of f (fingerprints).
+func (o optModel) placedBy(f *fileModel) string {
+	if o.SourceRelative {
+		return "paths=source_relative"
+	}
+	by := "go_package"
+	if _, ok := o.M[f.Name]; ok {
+		by = "M"
+	} else if f.Generate && o.ImportPath != "" {
+		by = "import_path"
+	}
+	if o.Module != "" {
+		by += "+module"
+	}
+	return by
 }
 
 func (o optModel) descVar(s *svcModel) string {
@@ -284,6 +333,8 @@ type caseStats struct {
 	StreamIndexes int // Streams[i] comparisons
 	TypeChecked   int // emitted files type-checked
 	DescRefs      int // references to a service descriptor variable compared with the option-selected name
+	OutputNames   int // emitted files whose name was compared with the location the options select
+	FileSets      int // requests whose set of emitted files was compared with the set of files that declare services
 	Observed      string
 }
 
@@ -392,7 +443,11 @@ func checkResponse(c caseSpec, rm *requestModel, res *pluginResult) ([]finding, 
 		return fs, st
 	}
 	if res.Resp.Error != nil {
-		add("plugin-error", "opt="+c.OptKey+"|types="+c.typesKey()+"|"+normMsg(strings.ReplaceAll(res.Resp.GetError(), pkgDir(c.Pkg)+"/", "<pkg>/")), "plugin rejected a valid request: "+res.Resp.GetError())
+		msg := res.Resp.GetError()
+		if pluginPath != "" {
+			msg = strings.ReplaceAll(msg, pluginPath, "protoc-gen-grpchan")
+		}
+		add("plugin-error", "opt="+c.OptKey+"|types="+c.typesKey()+"|"+normMsg(strings.ReplaceAll(msg, pkgDir(c.Pkg)+"/", "<pkg>/")), "plugin rejected a valid request: "+res.Resp.GetError())
 		return fs, st
 	}
 
@@ -448,6 +503,9 @@ func checkResponse(c caseSpec, rm *requestModel, res *pluginResult) ([]finding, 
 		pos := fmt.Sprintf("svc#%d", svcIndex(s)+1)
 		_ = si
 		fds := regs[s.GoName]
+		if len(fds) == 0 && noOutputFor(o, s.File, res, regs) {
+			continue // the whole file is absent: reported once, under output-files
+		}
 		if len(fds) != 1 {
 			add("register", fmt.Sprintf("count=%d|%s|opt=%s", len(fds), pos, c.OptKey), fmt.Sprintf("service %s has %d RegisterHandler%s functions, want exactly 1", s.FullName, len(fds), s.GoName))
 			continue
@@ -475,6 +533,13 @@ func checkResponse(c caseSpec, rm *requestModel, res *pluginResult) ([]finding, 
 			add("register", fmt.Sprintf("args|%s|opt=%s", pos, c.OptKey), fmt.Sprintf("RegisterHandler%s does not call <registry param>.RegisterService(.., <server param>): %s", s.GoName, exprString(call)))
 		}
 	}
+
+	// the set of emitted files: exactly one per file to generate that declares a service, at the
+	// location the options select; none for a file without services
+	ffs, named := checkFileSet(c, o, rm, res, files)
+	fs = append(fs, ffs...)
+	st.FileSets++
+	st.OutputNames += named
 
 	// type-check every Go package that received an emitted file, together with its companion
 	groups := map[string][]*fileModel{}
@@ -868,6 +933,114 @@ func checkDescRefs(c caseSpec, o optModel, rm *requestModel, ef *emittedFile, de
 		add(fmt.Sprintf("mixed|%s|opt=%s", strings.Join(used, ","), c.OptKey), fmt.Sprintf("%s refers to service descriptors under both naming schemes: %s; one generated file must use the one scheme legacy_desc_names=%v selects (%s)", ef.Name, strings.Join(used, ", "), o.LegacyDesc, schemeName(o.LegacyDesc)))
 	}
 	return len(refs), fs
+}
+
+// noOutputFor: the response holds no file at the location the options select for f, and no
+// emitted file holds a registration function of one of its services.
+func noOutputFor(o optModel, f *fileModel, res *pluginResult, regs map[string][]*ast.FuncDecl) bool {
+	for _, s := range f.Svcs {
+		if len(regs[s.GoName]) > 0 {
+			return false
+		}
+	}
+	if want, ok := o.outputName(f); ok {
+		for _, rf := range res.Resp.File {
+			if rf.GetName() == want {
+				return false
+			}
+		}
+	}
+	return true
+}
+
+// checkFileSet compares the names of the emitted files with the request: every file to
+// generate that declares a service has exactly one output file, named and placed as the
+// options say; a file that declares no service has none.
+func checkFileSet(c caseSpec, o optModel, rm *requestModel, res *pluginResult, files []*emittedFile) ([]finding, int) {
+	var fs []finding
+	named := 0
+	gen := rm.genNames()
+	regs := map[string][]*ast.FuncDecl{}
+	byFile := map[*fileModel][]*emittedFile{}
+	for _, ef := range files {
+		if ef.For != nil {
+			byFile[ef.For] = append(byFile[ef.For], ef)
+			for _, s := range ef.For.Svcs {
+				regs[s.GoName] = []*ast.FuncDecl{nil}
+			}
+		}
+	}
+	wanted := map[string]*fileModel{}
+	var before []string
+	for _, name := range gen {
+		f := rm.file(name)
+		kind := kindOfFile(f)
+		after := "-"
+		if len(before) > 0 {
+			set := map[string]bool{}
+			for _, k := range before {
+				set[k] = true
+			}
+			var ks []string
+			for k := range set {
+				ks = append(ks, k)
+			}
+			sort.Strings(ks)
+			after = strings.Join(ks, "+")
+		}
+		before = append(before, kind)
+		if len(f.Svcs) == 0 {
+			continue
+		}
+		want, hasRef := o.outputName(f)
+		if hasRef {
+			wanted[want] = f
+		}
+		efs := byFile[f]
+		if len(efs) == 1 && hasRef {
+			named++
+		}
+		switch {
+		case len(efs) == 0 && noOutputFor(o, f, res, regs):
+			have := []string{}
+			for _, rf := range res.Resp.File {
+				have = append(have, rf.GetName())
+			}
+			fs = append(fs, finding{"output-files", fmt.Sprintf("missing|self=%s|after=%s", kind, after),
+				fmt.Sprintf("%s declares %d service(s) and is listed in file_to_generate %v, but the response, which reports no error, holds no stub file for it (emitted: %v)", f.Name, len(f.Svcs), gen, have)})
+		case len(efs) == 1 && hasRef && efs[0].Name != want:
+			var got string
+			unmapped := o
+			unmapped.M = nil
+			if alt, ok := unmapped.outputName(f); ok && alt == efs[0].Name {
+				got = "location-without-the-M-option"
+			} else if path.Base(efs[0].Name) != path.Base(want) {
+				got = "other-file-name"
+			} else {
+				got = "other-directory"
+			}
+			fs = append(fs, finding{"output-name", fmt.Sprintf("placed-by=%s|got=%s|path-starts=%s", o.placedBy(f), got, leadM(f.Name)),
+				fmt.Sprintf("the stubs of %s are emitted as %s; options %q place the generated code of that file (package %s) at %s", f.Name, efs[0].Name, c.Param, o.pkgOf(f).Path, want)})
+		}
+	}
+	for _, ef := range files {
+		if ef.For != nil {
+			continue
+		}
+		if _, ok := wanted[ef.Name]; ok {
+			continue // the file of a service-declaring proto file, lacking its registrations: reported under register
+		}
+		what := "other"
+		for _, name := range gen {
+			f := rm.file(name)
+			if n, ok := o.outputName(f); ok && n == ef.Name && len(f.Svcs) == 0 {
+				what = "for-file-without-services"
+			}
+		}
+		fs = append(fs, finding{"output-files", fmt.Sprintf("unexpected|%s|opt=%s", what, c.OptKey),
+			fmt.Sprintf("the response holds %s, which is not the stub file of any file to generate that declares a service (file_to_generate %v)", ef.Name, gen)})
+	}
+	return fs, named
 }
 
 func svcIndex(s *svcModel) int {
